@@ -370,7 +370,7 @@ def ops_for(kind):
     ops = [('append', (v,)) for v in vals[:3]] + [('add', (v,)) for v in vals[:2]] + [('insert', (0, 3)), ('insert', (1, 0)), ('insert', (-1, 2))]
     ops += [('remove', (0,)), ('remove', (2,)), ('discard', (1,)), ('pop', ()), ('delitem', (0,)), ('delitem', (-1,)), ('delitem', (5,))]
     ops += [('setitem', (0, 2)), ('setitem', (1, 1)), ('setitem', (-1, 0)), ('setitem', (0, 0))]
-    ops += [('reverse', ()), ('clear', ()), ('extend', ([3, 0],)), ('update', ([1, 3],))]
+    ops += [('reverse', ()), ('clear', ()), ('extend', ([3, 0],)), ('update', ([1, 3],)), ('continue-on-copy', ())]      # the last: c = c.copy(), the history goes on with the copy
     if kind in ('qset',):
         ops += [('sort', ()), ('setslice', (slice(0, 2), [3, 3])), ('setslice', (slice(0, 2), [2, 3])), ('setslice', (slice(0, 1), [1])), ('delslice', (slice(0, 2),)), ('delslice', (slice(1, None),))]
         ops += [('ior', ([2, 0],)), ('isub', ([0, 3],)), ('iand', ([0, 1],))]
@@ -390,6 +390,9 @@ def bounded_sequences(ctx):
         if kind == 'qset' and not ctx.thorough: pass
         seqs = list(seqs)
         if len(seqs) > 40000: seqs = rnd.sample(seqs, 40000)
+        copy_i = next(i for i, o in enumerate(ops) if o[0] == 'continue-on-copy')
+        # every sequence as it is, and once more with the container replaced by its copy() right before the last operation
+        seqs = seqs + [sq[:-1] + (copy_i, sq[-1]) for sq in seqs if copy_i not in sq]
         for seq in seqs:
             c = cls(); r = Ref()
             hist = []
@@ -398,10 +401,14 @@ def bounded_sequences(ctx):
                 hist.append((op, args))
                 before = list(c)
                 exc_real = exc_ref = None
-                try: apply_real(c, op, args)
-                except Exception as e: exc_real = type(e).__name__
-                try: r.apply(op, args)
-                except ValueError as e: exc_ref = str(e)
+                if op == 'continue-on-copy':
+                    try: c = c.copy()
+                    except Exception as e: exc_real = type(e).__name__
+                else:
+                    try: apply_real(c, op, args)
+                    except Exception as e: exc_real = type(e).__name__
+                    try: r.apply(op, args)
+                    except ValueError as e: exc_ref = str(e)
                 total += 1
                 try: got = observe(c)
                 except Exception as e: got = dict(error=repr(e))
@@ -597,6 +604,8 @@ def replay(payload):
         last = None
         for op, a in f['history']:
             args = eval(a, {'slice': slice})
+            if op == 'continue-on-copy':
+                c = c.copy(); last = (op, None, None); continue
             try: apply_real(c, op, args); er = None
             except Exception as e: er = type(e).__name__
             try: r.apply(op, args); ef = None
